@@ -498,7 +498,7 @@ pub fn c07(run: &mut Run) -> Stats {
             }
         }
     }
-    let wall = if thorough { 60 } else { 15 };
+    let wall = if thorough { 120 } else { 40 };
     let known = run.known.clone();
     let results: Vec<((&str, usize, &str, bool), (String, String))> = jobs.par_iter().map(|j| (*j, run_child(j.0, j.1, j.2, j.3, wall))).collect();
     let mut table = Vec::new();
@@ -525,7 +525,10 @@ pub fn c07(run: &mut Run) -> Stats {
         let pat_len = shape(name, n).map(|p| p.chars().count()).unwrap_or(usize::MAX);
         // The time limit is CPU time of the child (independent of how loaded the machine is); the wall-clock
         // backstop (4x) only fires when the machine itself is starved, which says nothing about the subject.
-        if (status == "alloc-failed-under-cap" && pat_len > (1 << 20)) || (status == "timeout" && n > 10_000) || status == "wall-backstop" {
+        // A CPU-time-out is a verdict only for a small input (at most 4096 code points of pattern): larger
+        // shapes do legitimately heavy work (2000 copies of \p{RGI_Emoji} expand to 7 million string
+        // alternatives) and how long that takes depends on the machine.
+        if (status == "alloc-failed-under-cap" && pat_len > (1 << 20)) || (status == "timeout" && (n > 10_000 || pat_len > 4096)) || status == "wall-backstop" {
             caps.push(format!("{} n={} flags={:?} {}: {}", name, n, fs, if th { "thread" } else { "main" }, status));
             st.add("shape_runs_cut_by_caps", 1);
             continue;
@@ -555,7 +558,7 @@ pub fn c07(run: &mut Run) -> Stats {
         st.sample(|| t);
     }
     run.rule = format!(
-        "(a) every string over the {}-token alphabet {:?} of length <= {} and every raw code point string over {{0, (, \\, U+D800, U+DFFF, U+10FFFF, a, {{, [, u, }}}} of length <= {} x flag sets {:?}: from_unicode must return Ok or Err (catch_unwind; a watchdog reports any compile > 10 s); (c) every prefix and suffix of every C08 seed pattern, and every prefix followed by each of 15 cut-off construct openings (\\ \\u \\x \\c \\k< \\p{{ \\q{{ (? (?< [ [^ {{ {{1, \\u{{ \\ud83d\\u), x the same flag sets; (c2) every code point of interest (all with a case partner in either mode, encoding-length boundary neighbours, 0..=U+0100, surrogate block ends; thorough: all of 0..=0x10FFFF) substituted into 20 templates (atom, class member, range end, \\q string, set operand, backreference target, quantified, lookbehind, escaped, group name, modifier body, alternation), x the same flag sets x {{optimised, no_opt}}; (c3) 18 numeric contexts (\\u{{ \\x \\u \\c \\k<\\u{{ \\p{{ in and out of classes, group names, {{n}} {{n,m}} {{n,}}, \\N, octal) x every run over three digits of length <= 10 (11 thorough) x {{\"\",u,v,i}}; (c4) every ordered pair of 18 large properties in 9 class templates (union, &&, --, negation, nesting) x {{u,v,iu,iv}} x {{optimised, no_opt}}; (b) {} size-parameterised shapes x sizes {:?} x {{\"\",u,v}} x {{main thread, spawned 2 MiB thread}}, each in a child process (8 MiB stack, 6 GiB address space, {} s of CPU time): exit status 0 with Ok/Err; an allocation failure under the 6 GiB cap is a violation for patterns of at most 2^20 code points and a cap beyond; non-trivial = the input compiles",
+        "(a) every string over the {}-token alphabet {:?} of length <= {} and every raw code point string over {{0, (, \\, U+D800, U+DFFF, U+10FFFF, a, {{, [, u, }}}} of length <= {} x flag sets {:?}: from_unicode must return Ok or Err (catch_unwind; a watchdog reports any compile > 10 s); (c) every prefix and suffix of every C08 seed pattern, and every prefix followed by each of 15 cut-off construct openings (\\ \\u \\x \\c \\k< \\p{{ \\q{{ (? (?< [ [^ {{ {{1, \\u{{ \\ud83d\\u), x the same flag sets; (c2) every code point of interest (all with a case partner in either mode, encoding-length boundary neighbours, 0..=U+0100, surrogate block ends; thorough: all of 0..=0x10FFFF) substituted into 20 templates (atom, class member, range end, \\q string, set operand, backreference target, quantified, lookbehind, escaped, group name, modifier body, alternation), x the same flag sets x {{optimised, no_opt}}; (c3) 18 numeric contexts (\\u{{ \\x \\u \\c \\k<\\u{{ \\p{{ in and out of classes, group names, {{n}} {{n,m}} {{n,}}, \\N, octal) x every run over three digits of length <= 10 (11 thorough) x {{\"\",u,v,i}}; (c4) every ordered pair of 18 large properties in 9 class templates (union, &&, --, negation, nesting) x {{u,v,iu,iv}} x {{optimised, no_opt}}; (b) {} size-parameterised shapes x sizes {:?} x {{\"\",u,v}} x {{main thread, spawned 2 MiB thread}}, each in a child process (8 MiB stack, 6 GiB address space, {} s of CPU time): exit status 0 with Ok/Err; a CPU time-out is a violation only for patterns of at most 4096 code points; an allocation failure under the 6 GiB cap is a violation for patterns of at most 2^20 code points and a cap beyond; non-trivial = the input compiles",
         toks.len(),
         TOKENS,
         n_tok,
